@@ -193,7 +193,9 @@ theorem C14_fresh (R : Route) (c s p : Option Val) (ops : List Op) (sch : List E
       (model .repaired R c s p ops sch).fget = true :=
   fresh_main R c s p ops sch wf.ck wf.pp wf.ops wf.faults wf.evict hco
 
-/-- **List atomicity.** For every set of concurrent AppendToList/RemoveFromList calls on one list, every
+/-- **List atomicity.** For every set of concurrent AppendToList/RemoveFromList calls on one list — with any
+number of plain `GetList` readers running beside them, whatever form the tiers hold the list in (decoded,
+or the JSON string remote storage and Redis answer) — every
 schedule, every placement of persistent-tier failures and of cache evictions: after all calls have returned,
 every element whose append succeeded (and whose removal did not) is in the list, every element whose
 removal succeeded (and whose append did not) is not, nothing is in the list that was neither there
@@ -447,6 +449,20 @@ example :
     (model .repaired (route (defaultStorage true false) "tunnox:user:k1") (some (.str 1)) none (some (.str 1))
       [.set (.str 5) 0] [⟨0, some .persistent, none⟩]).fin = (some (.str 1), none, some (.str 1)) := by
   decide +kernel
+
+/-- Readers and JSON-form lists are inside `C14_list`: a cold cache over a persistent tier that answers the
+list as a JSON string, a `GetList` reader overlapping an append.  The reader's only cache write is the
+write-back under the key lock; afterwards the appended member is in every tier that holds the list. -/
+example :
+    (model .repaired (route (defaultStorage true false) "tunnox:persist:clients:list") none none (some (.jl [1, 2]))
+      [.getl, .app 7] [⟨0, none, none⟩, ⟨0, none, none⟩, ⟨0, none, none⟩, ⟨1, none, none⟩, ⟨1, none, none⟩,
+        ⟨1, none, none⟩, ⟨0, none, none⟩]).fin = (some (.list [1, 2, 7]), none, some (.list [1, 2, 7])) := by
+  decide +kernel
+
+/-- … and the predicate rejects the observation of a reader that wrote its older snapshot into the cache
+after the append had completed (the final `Get` misses the member). -/
+example : holdsList (some (.jl [1, 2]))
+    [⟨.getl, 1, 8, some (.val (.list [1, 2]))⟩, ⟨.app 7, 4, 7, some .ok⟩] (.val (.list [1, 2])) = false := by decide
 
 /-- The list predicate rejects a lost append. -/
 example : holdsList (some (.list [1]))
